@@ -33,6 +33,11 @@ FileNotFoundError PermissionError KeyboardInterrupt SystemExit StopAsyncIteratio
 EXACT = {f"builtins.{n}": PURE for n in _PURE_BUILTINS}
 EXACT.update({
     "builtins.print": PRINT,
+    "logging.getLogger": PURE, "logging.debug": PRINT, "logging.info": PRINT, "logging.warning": PRINT,
+    "logging.error": PRINT, "logging.exception": PRINT, "logging.critical": PRINT, "logging.log": PRINT,
+    "logging.NullHandler": PURE, "logging.DEBUG": PURE, "logging.INFO": PURE, "logging.WARNING": PURE,
+    "logging.ERROR": PURE, "logging.CRITICAL": PURE, "logging.Logger": PURE,
+    "warnings.warn": PRINT,
     # handled specially by the extractor (argument-dependent): open getattr setattr delattr
     "builtins.eval": EFFECTFUL, "builtins.exec": EFFECTFUL, "builtins.compile": EFFECTFUL,
     "builtins.__import__": EFFECTFUL, "builtins.globals": EFFECTFUL, "builtins.locals": EFFECTFUL,
@@ -114,7 +119,10 @@ most_common elements total popleft appendleft rotate move_to_end fromkeys mro __
 """.split()
 _READ_METHODS = "read read1 readline readlines readinto readinto1 peek getvalue getbuffer".split()
 _WRITE_METHODS = "write writelines flush truncate".split()
-_PRINT_METHODS = "print_help print_usage error exit".split()
+# diagnostics: argparse's own messages and the `logging` API (Logger methods; what a record does is decided
+# by the APPLICATION's logging configuration, never by the content of the analysed input)
+_PRINT_METHODS = ("print_help print_usage error exit "
+                  "debug info warning warn critical exception log isEnabledFor getChild setLevel addHandler").split()
 _EFFECTFUL_METHODS = """
 load loads system popen Popen import_module exec_module load_module find_class find_spec find_module
 create_module persistent_load connect connect_ex bind listen accept send sendall sendto recv urlopen
